@@ -144,6 +144,16 @@ def predict(model, xs, s, grad=False, through_likelihood=False):
 # interpreter
 # ---------------------------------------------------------------------------------------------------
 def run_history(case, ctx: Ctx):
+    if case.get("lowrank"):
+        # iterative solves at tight tolerance (so that only the rank of the fast_pred_var cache is approximate), same settings for the
+        # real model and for every fresh model
+        with S.max_cholesky_size(0), S.max_root_decomposition_size(case["lowrank"]), S.cg_tolerance(1e-12), S.eval_cg_tolerance(1e-12), \
+                S.max_cg_iterations(2000), S.max_preconditioner_size(0):
+            return _run_history(case, ctx)
+    return _run_history(case, ctx)
+
+
+def _run_history(case, ctx: Ctx):
     fam = case["family"]
     lz = {bool(o.get("s", {}).get("lazy", True)) for o in case["ops"] if o["op"] in ("predict", "predict_backward", "likelihood_call")} | {True}
     ctx.cls = fam + ("|mixed_lazy" if len(lz) > 1 else "")
@@ -157,13 +167,19 @@ def run_history(case, ctx: Ctx):
     kinds = []
 
     def compare(tag, xs, s):
+        if case.get("lowrank") and s.get("fpv", False):
+            # a rank-k fast_pred_var prediction is an approximation whose value legitimately depends on which (better) roots happen to
+            # be memoized already; it is made (it fills the caches) but only predictions by exact algorithms are judged
+            predict(model, xs, s)
+            ctx.label("lowrank_fpv_prediction_not_judged")
+            return
         fresh = fresh_like(case, model, cur_X, cur_y)
         _, gm, gc = predict(model, xs, s)
         _, wm, wc = predict(fresh, xs, s)
         # KISS-GP keeps its grid in float32 and updates caches incrementally (WISKI): agreement to 1e-5, like the
         # Lanczos-backed fast_pred_var caches of SGPR
         iterative = fam == "kiss" or (s.get("fpv", False) and fam == "sgpr")
-        tol = 1e-5 if iterative else 1e-8
+        tol = 1e-5 if iterative else (1e-6 if case.get("lowrank") else 1e-8)
         scale = max(1.0, float(wc.abs().max()), float(wm.abs().max()))
         ctx.close(f"{tag}.mean", gm, wm, rtol=tol, atol=tol, scale=scale)
         ctx.close(f"{tag}.cov", gc, wc, rtol=tol, atol=tol, scale=scale)
@@ -269,6 +285,19 @@ def run_history(case, ctx: Ctx):
                     model.load_state_dict(sd, strict=True)
                 saw_mutation_between = True
             elif name == "fantasy":
+                if fam == "svgp_w":
+                    # the whitened strategy offers fantasy models too (online variational conditioning): creating one must leave the
+                    # source as it was, in particular when it happens before the first eval-mode prediction
+                    if model.training:
+                        model.eval()
+                    Xf, yf = T(op["Xf"]), T(op["yf"])
+                    if Xf.dim() != 2 or yf.dim() != 1:
+                        continue
+                    with torch.no_grad():
+                        model.get_fantasy_model(Xf, yf)
+                    saw_mutation_between = True
+                    ctx.label("op=fantasy.variational")
+                    continue
                 if fam not in EXACT or fam in ("sgpr",):
                     continue
                 if fam in ("exact", "exact_batch") and list(cur_X.shape[:-2]) != list(case["recipe"]["mb"]):
@@ -299,7 +328,7 @@ def run_history(case, ctx: Ctx):
             else:
                 raise AssertionError(f"unknown op {name}")
     ctx.set_nontrivial(nontrivial)
-    ctx.label(f"family={fam}", f"len={min(len(case['ops']), 9)}", *{f"op={k}" for k in kinds})
+    ctx.label(f"family={fam}", f"len={min(len(case['ops']), 9)}", *{f"op={k}" for k in kinds}, *(["lowrank_history"] if case.get("lowrank") else []))
 
 
 # ---------------------------------------------------------------------------------------------------
@@ -343,6 +372,8 @@ def op_strategy(draw, fam, d, xb, yb, t=None, mb=()):
     names = ["predict", "predict", "predict_backward", "likelihood_call", "prior_mode", "train_eval", "train", "eval", "step", "load_state"]
     if fam in EXACT:
         names += ["set_train_data", "set_train_data", "fantasy"]
+    if fam == "svgp_w":
+        names += ["fantasy"]
     name = draw(st.sampled_from(names))
     op = {"op": name}
     if name in ("predict", "predict_backward", "likelihood_call", "prior_mode"):
@@ -371,7 +402,15 @@ def history_case(draw, families=FAMILIES, max_ops=8):
     recipe, X, y, d, xb, yb = draw(recipe_and_data(fam))
     t = recipe.get("t") if fam == "multitask" else None
     ops = draw(st.lists(op_strategy(fam, d, xb, yb, t, list(recipe.get('mb') or [])), min_size=1, max_size=max_ops))
-    return {"family": fam, "recipe": recipe, "X": X, "y": y, "ops": ops, "probe": draw(kern.points(2, d, list(recipe.get("mb") or [])))}
+    case = {"family": fam, "recipe": recipe, "X": X, "y": y, "ops": ops, "probe": draw(kern.points(2, d, list(recipe.get("mb") or [])))}
+    if fam in ("exact", "exact_batch") and draw(st.integers(0, 3)) == 0:
+        # the whole history runs above max_cholesky_size with a small max_root_decomposition_size: fast_pred_var caches are then
+        # genuinely low-rank approximations, which must never leak into predictions made with fast_pred_var off
+        # (the dependency's Lanczos needs at least a 3 x 3 matrix and two iterations: every training set of the history has n >= 4)
+        sizes = [recipe["n"]] + [len(T(o["X"]).reshape(-1, T(o["X"]).shape[-2], d)[0]) for o in ops if o["op"] == "set_train_data" and not o["targets_only"]]
+        if min(sizes) >= 4:
+            case["lowrank"] = draw(st.integers(2, 3))
+    return case
 
 
 # ---- bounded-exhaustive tier: all sequences up to a length over canonical operations on one fixed instance per family
@@ -408,6 +447,8 @@ def _canon(fam):
         {"op": "load_state", "which": "perturbed", "delta": -0.4, "keys": {"depth": 1, "idx": 0}},  # only covar_module.*
         {"op": "likelihood_call", "x": xs, "s": {}},
     ]
+    if fam == "svgp_w":
+        alphabet += [{"op": "fantasy", "Xf": [[0.75], [-1.25]], "yf": [0.5, -0.5], "adopt": False}]
     if fam in EXACT:
         alphabet += [
             {"op": "set_train_data", "X": [[-1.0], [0.0], [1.0]], "y": [1.0, 0.0, -1.0], "targets_only": False, "strict": False},
@@ -425,6 +466,9 @@ def enumerate_histories(tier):
         for L in range(1, maxlen + 1):
             for seq in itertools.product(range(len(alphabet)), repeat=L):
                 yield dict(base, ops=[alphabet[i] for i in seq])
+                if fam == "exact":
+                    # the same history above max_cholesky_size with rank-2 fast_pred_var caches
+                    yield dict(base, ops=[alphabet[i] for i in seq], lowrank=2)
 
 
 RULE = ("histories = lists of public operations (predict under generated settings and test batch shapes, predict + backward under "
